@@ -209,13 +209,9 @@ class ArrayReductionBaseTrans(Transformation, ABC):
         for rhs_reference in orig_rhs.walk(Reference):
             if rhs_reference.symbol is lhs_symbol:
                 increment = True
-        if increment:
-            new_lhs_symbol = node.scope.symbol_table.new_symbol(
-                root_name="tmp_var", symbol_type=DataSymbol,
-                datatype=orig_lhs.datatype)
-            new_lhs = Reference(new_lhs_symbol)
-        else:
-            new_lhs = orig_lhs.copy()
+        # (The temporary is only created once the conversion to a loop
+        # has succeeded so that nothing is left behind if it does not.)
+        symbol_table = node.scope.symbol_table
 
         expr, _, mask_ref = self._get_args(node)
 
@@ -302,8 +298,7 @@ class ArrayReductionBaseTrans(Transformation, ABC):
             # The ArrayAssignment2LoopsTrans could fail to convert the ranges,
             # unfortunately this can not be tested before modifications to the
             # tree (e.g. in the validate), so the best we can do is reverting
-            # to the orginal statement (with maybe some leftover tmp variable)
-            # and produce the error here.
+            # to the orginal statement and produce the error here.
             assignment.replace_with(orig_assignment)
             # pylint: disable=raise-missing-from
             raise TransformationError(
@@ -311,6 +306,13 @@ class ArrayReductionBaseTrans(Transformation, ABC):
                 f"expression:\n{assignment.debug_string()}\n into a loop "
                 f"because:\n{err.value}")
         outer_loop = assignment_parent.children[assignment_position]
+        if increment:
+            new_lhs_symbol = symbol_table.new_symbol(
+                root_name="tmp_var", symbol_type=DataSymbol,
+                datatype=orig_lhs.datatype)
+            new_lhs = Reference(new_lhs_symbol)
+        else:
+            new_lhs = orig_lhs.copy()
         if mask_ref:
             # remove mask from the rhs of the assignment
             orig_assignment = assignment_rhs.children[0].copy()
